@@ -10,12 +10,16 @@ from fractions import Fraction
 from . import gen, kernel, model, ops
 from .world import HEAP_MAX, J, mutable_ids
 
+FAULT_EXCS = ["interrupt", "interrupt", "interrupt", "memory", "assertion", "value", "type", "zerodiv"]
+
 PROFILES = {
     # weights of step kinds
     "C08": dict(build=2, operator=7, bquery=3, uquery=3, copy=4, transform=5, rerep=1, fault=1,
                 mutate_after=0.6, t1=0.15, t2=0.1, repeat=0.05),
     "C09": dict(build=2, operator=2, bquery=1, uquery=3, copy=1, transform=9, rerep=1, fault=2,
                 mutate_after=0.3, t1=0.2, t2=0.8, repeat=0.05),
+    "C11": dict(build=2, operator=7, bquery=5, uquery=3, copy=2, transform=2, rerep=2, fault=1,
+                mutate_after=0.1, t1=0.6, t2=0.5, repeat=0.2, query_after=0.3, pair_again=0.5, inject=0.45),
     "C10": dict(build=2, operator=6, bquery=4, uquery=5, copy=1, transform=3, rerep=2, fault=2,
                 mutate_after=0.15, t1=1.0, t2=0.7, repeat=0.35, query_after=0.6, pair_again=0.6),
 }
@@ -70,6 +74,10 @@ class Scheduler:
         step["repeat"] = r.random() < p["repeat"]
         if "drop_in_call" in self.cfg["faults"] and r.random() < 0.12:
             step["drop"] = r.choice(["live", "t1", "t2"])
+        if r.random() < p.get("inject", 0.0) and step["op"] not in ("plot", "str", "repr"):
+            step["fault"] = {"kfrac": r.random(), "exc": r.choice(FAULT_EXCS),
+                             "mode": "structural" if r.random() < 0.85 else "all"}
+            step["dst"] = None if "dst" in step else step.get("dst")
         return step
 
     def _number(self, lo, hi, numeric=None, positive=False):
@@ -417,6 +425,63 @@ class Scheduler:
                       "same_answer_as": base + 1, "needs": [base + 2, base + 3]})
         return steps
 
+    def consequence_macro(self, world):
+        """Macro for C09: ask (containment of p, area, a moment), transform, ask again about
+        T(p) / the same quantity: the answers must be related as the affine map says."""
+        r = self.rng
+        names = self._shapes(world, defined=True)
+        if not names:
+            return None
+        a = r.choice(names)
+        v = world.slots[a].V
+        base = len(world.steps)
+        numeric = self.cfg["numeric"]
+        exact = kernel.is_rational(v) and kernel.is_polygonal(v)
+        pts = gen.query_points(r, [v], 1, False, numeric)
+        if not pts:
+            return None
+        p = pts[0]
+        kind = r.choice(["move", "scale", "rotate"])
+        ea = r.randint(0, 1)
+        eb = r.randint(0, 1 - ea)
+        if kind == "move":
+            d = (self._number(-6, 6, numeric), self._number(-6, 6, numeric))
+            tstep = {"op": "move", "a": a, "v": _jp(d), "form": r.choice(["args", "tuple"])}
+            tp = (p[0] + d[0], p[1] + d[1])
+            det = 1
+            mom_ratio = 1 if (ea, eb) == (0, 0) else None
+        elif kind == "scale":
+            if numeric == "float":
+                sx, sy = r.uniform(0.3, 3), r.uniform(0.3, 3)
+            else:
+                sx, sy = Fraction(r.randint(1, 6), r.randint(1, 6)), Fraction(r.randint(1, 6), r.randint(1, 6))
+            tstep = {"op": "scale", "a": a, "sx": J(sx), "sy": J(sy)}
+            tp = (p[0] * sx, p[1] * sy)
+            det = sx * sy
+            mom_ratio = sx ** (ea + 1) * sy ** (eb + 1)
+        else:
+            ang = r.uniform(-3.1, 3.1)
+            tstep = {"op": "rotate", "a": a, "angle": J(ang), "degrees": None}
+            c, sn = math.cos(ang), math.sin(ang)
+            tp = (c * float(p[0]) - sn * float(p[1]), sn * float(p[0]) + c * float(p[1]))
+            det = 1
+            mom_ratio = 1 if (ea, eb) == (0, 0) else None
+        steps = [
+            {"op": "contains_point", "a": a, "p": _jp(p), "boundary": True, "t1": False, "t2": False},
+            {"op": "area", "a": a, "t1": False, "t2": False},
+            {"op": "moment", "a": a, "ea": ea, "eb": eb, "t1": False, "t2": False},
+            tstep,
+            {"op": "contains_point", "a": a, "p": _jp(tp), "boundary": True, "t1": False, "t2": True,
+             "expect": {"kind": "same_bool", "ref": base, "p": _jp(p)}, "needs": [base + 3]},
+            {"op": "area", "a": a, "t1": False, "t2": True,
+             "expect": {"kind": "ratio", "ref": base + 1, "ratio": J(det)}, "needs": [base + 3]},
+        ]
+        if mom_ratio is not None:
+            steps.append({"op": "moment", "a": a, "ea": ea, "eb": eb, "t1": False, "t2": True,
+                          "expect": {"kind": "ratio", "ref": base + 2, "ratio": J(mom_ratio)},
+                          "needs": [base + 3]})
+        return steps
+
     def rerep_step(self, world):
         r = self.rng
         names = [n for n in sorted(world.slots) if kernel.kind(world.slots[n].V) not in ("E", "W")]
@@ -482,6 +547,11 @@ class Scheduler:
                 return self.build_step(world)
             if kind == "transform" and self.prop == "C09" and r.random() < 0.25:
                 steps = self.inverse_pair(world)
+                if steps:
+                    self.pending = steps[1:]
+                    return steps[0]
+            if kind == "transform" and r.random() < (0.3 if self.prop == "C09" else 0.08):
+                steps = self.consequence_macro(world)
                 if steps:
                     self.pending = steps[1:]
                     return steps[0]
